@@ -3,7 +3,7 @@
    Host locations go through Shift (Insert) or Expand (Embed); guest locations
    through Expand(0, i).  `den` is the ordered, stranded list of denoted
    residues (model/Loc.v), `bump i n` moves positions at or after i by n. *)
-From GTS Require Import Base Arith Loc Seq BaseLemmas LocProofs EditProofs SeqProofs.
+From GTS Require Import Base Arith Loc Seq BaseLemmas LocProofs EditProofs SeqProofs JoinDen JoinLift.
 Open Scope Z_scope.
 
 (* residues: host[:i] + guest + host[i:], and a panic outside 0..len(host) *)
@@ -41,3 +41,31 @@ Example C02_example :
   jfree l = true /\ ord_ok l = true /\
   shift l 4 3 = Ok (Ordered [Complemented (Joined [Ranged 2 4 true false; Ranged 7 9 false false]); Point 10]).
 Proof. vm_compute. repeat split; reflexivity. Qed.
+
+(* The same two statements for EVERY location: join(...), order(...) and
+   complement(...) nested to any depth.  deq = equal up to dropping adjacent
+   duplicates (what Join itself does to a repeated base).  The hypothesis
+   k1_after says that among the images of the location's leaves no point lands
+   on the end coordinate of a range and no range is empty: exactly the pattern
+   (K1) on which Join is known to lose a base.  Partial correctness (whenever
+   the operation returns a location); success itself is proved above for the
+   join-free case and, for joins, Join is proved never to panic (C07). *)
+Theorem C02_shift_den_joins : forall i n, 0 <= n -> forall l,
+  k1_after (fun x => shift x i n) l ->
+  forall l', shift l i n = Ok l' -> deq (den l') (map (onpos (bump i n)) (den l)).
+Proof. exact shift_den_all. Qed.
+Print Assumptions C02_shift_den_joins.
+
+Theorem C02_expand_den_joins : forall i n, 0 < n -> forall l,
+  k1_after (fun x => expand x i n) l ->
+  forall l', expand l i n = Ok l' -> deq (emb_den i n (den l')) (map (onpos (bump i n)) (den l)).
+Proof. exact expand_pos_den_all. Qed.
+Print Assumptions C02_expand_den_joins.
+
+(* a join whose second part spans the insertion point and whose parts abut *)
+Example C02_joins_example :
+  let l := Joined [Ranged 0 2 true false; Complemented (Joined [Ranged 3 6 false false; Point 8])] in
+  k1_afterb (fun x => shift x 4 3) l = true /\
+  shift l 4 3 = Ok (Joined [Ranged 0 2 true false;
+                            Complemented (Joined [Ranged 3 4 false false; Ranged 7 9 false false; Point 11])]).
+Proof. vm_compute. split; reflexivity. Qed.
